@@ -150,8 +150,11 @@ class Ctx:
         ev = {"property_id": self.pid, "tier": self.tier, "seed": int(self.seed),
               "level": "model_checking", "coverage": cov, "assumptions": assumptions,
               "wall_s": round(time.time() - self.t0, 2), "violations": len(self.violations)}
-        os.makedirs(os.path.join(VERIF, "evidence"), exist_ok=True)
-        with open(os.path.join(VERIF, "evidence", self.pid + ".json"), "w") as f:
+        # runs against a scratch tree (seeded / behaviour-preserving changes) do not overwrite the evidence of /repo
+        evdir = os.path.join(VERIF, "evidence") if os.path.realpath(os.environ.get("VERIF_REPO", "/repo")) == "/repo" \
+            else os.path.join(VERIF, ".work", "evidence-scratch")
+        os.makedirs(evdir, exist_ok=True)
+        with open(os.path.join(evdir, self.pid + ".json"), "w") as f:
             json.dump(ev, f, indent=1, default=str)
         shutil.rmtree(self.work, ignore_errors=True)
         print("%s %s: states=%d traces=%d evaluations=%d nontrivial=%d violations=%d known=%s wall=%.1fs"
